@@ -26,8 +26,29 @@ a minimal conformant SDO server on a fake network; the real SdoClient talks to i
 Output (one line): the PDO's dictionary slot, outcome/attributes/subscriptions of A, the ordered
 list of SDO transactions the device saw, the device image, outcome/attributes/subscriptions of B
 and B's transactions.
+
+A second kind of operation drives the *collections* of a node with several PDOs:
+
+  coll <nodeid> <pre> <save> <read> <objsA> <objsB> <wfault> <rfault> <pdo> [<pdo> ...]
+
+  pdo      <R|T>~<n>~<how>~<cfg>~<map>~<odcom>~<odmap>~<dev>~<entries>~<mappable>   (fields as above)
+           how  u: the PdoMap object is never touched (cob_id stays None)
+                a: its attributes are set from <cfg>/<map>
+                d: map.read() from the live device        o: map.read(from_od=True)
+           the PDOs may be listed in any order; every one has its own strict PDO on the device
+  pre      "-", or d<X> / o<X>: first <X>.read() / <X>.read(from_od=True) on a collection
+  save     m: every listed map's own save(), in the order listed
+           r / t: node.rpdo.save() / node.tpdo.save()      c: node.rpdo.save() then node.tpdo.save()
+           p: node.pdo.save()                               l: node.load_configuration()
+  read     m / r / t / c / p: how the second, fresh node reads the configuration back
+  <X>      r | t | c | p  as under save
+
+The steps of node A are: <pre>, then the per-PDO steps (<how>) in the order listed, then <save>.
+Output: A=<outcome> mapsA=<key>:<attributes>:<subscriptions>|... log=<all SDO transactions>
+dev=<image>|... B=<outcome> mapsB=... logB=...
 """
 import logging
+import random
 import struct
 
 import canopen
@@ -36,7 +57,7 @@ from canopen.pdo.base import PdoVariable
 from canopen.sdo import SdoAbortedError
 
 ID = "C09"
-PROOF_MODULES = ["CanopenProofs.C09"]
+PROOF_MODULES = ["CanopenProofs.C09", "CanopenProofs.C09Coll"]
 GENERATED = ["PdoConfig"]
 THEOREMS = [
     "Canopen.C09.save_order",
@@ -48,6 +69,11 @@ THEOREMS = [
     "Canopen.C09.from_od",
     "Canopen.C09.load_configuration_round_trip",
     "Canopen.C09.pdo_numbering",
+    "Canopen.C09.save_all_order_any_device",
+    "Canopen.C09.save_all_append",
+    "Canopen.C09.save_all_strict_device",
+    "Canopen.C09.read_all_back",
+    "Canopen.C09.pdo_maps_order",
 ]
 FINGERPRINT = [
     "canopen.pdo.base:PdoMap.save",
@@ -62,6 +88,7 @@ FINGERPRINT = [
     "canopen.pdo.base:PdoBase.save",
     "canopen.pdo:RPDO.__init__",
     "canopen.pdo:TPDO.__init__",
+    "canopen.pdo:PDO.__init__",
     "canopen.node.remote:RemoteNode.load_configuration",
     "canopen.sdo.base:SdoRecord.__getitem__",
     "canopen.sdo.base:SdoArray.__getitem__",
@@ -83,6 +110,9 @@ ASSUMPTIONS = [
     "array or a record",
     "frame-format bit 29 of the COB-ID word is neither written by save() nor kept by read(); the "
     "property text does not mention it and the strict device does not police it",
+    "collections: the PDOs of a device are independent of each other (a write to one PDO's objects "
+    "never changes another PDO); mapped objects are not themselves PDO parameter objects "
+    "(indices 1400h-1BFFh are not generated as mapped objects)",
 ]
 RULE = ("ops `run …`: COB-IDs over 11/29-bit boundaries, all 256 transmission types, all 8 "
         "present/absent patterns of subs 3/5/6, mappings of 0..8 objects, PDO numbers "
@@ -90,8 +120,12 @@ RULE = ("ops `run …`: COB-IDs over 11/29-bit boundaries, all 256 transmission 
         "dictionary (value, default, neither) / live device, devices starting enabled with "
         "another mapping, plus the error paths (fault injection at every write position, "
         "fixed-count devices, missing dictionary entries, out-of-range values, unmappable "
-        "objects, over-long mappings, curtis_hack); non-trivial = save and read-back both "
-        "completed")
+        "objects, over-long mappings, curtis_hack); ops `coll …`: 1..4 PDOs per node (R and T, "
+        "numbers out of 1..512, listed in any order), each untouched / set up by attributes / read "
+        "from the device / read from the dictionary, optionally a collection read first, saved "
+        "through the maps, node.rpdo, node.tpdo, both, node.pdo or load_configuration, read back "
+        "into a fresh node through the same five ways, plus write/read faults and one PDO of the "
+        "collection outside the domain; non-trivial = save and read-back both completed")
 
 logging.getLogger("canopen").setLevel(logging.CRITICAL + 1)
 
@@ -428,7 +462,197 @@ def outcome(fn):
         return "local"
 
 
+# ------------------------------------------------------- collection operations (`coll ...`)
+class MapOp:
+    """one PDO of a collection operation; carries the attributes the single-PDO helpers
+    (expected_source_cfg, in_domain, expected_writes, ...) look at"""
+    curtis = False
+
+    def __init__(self, tok, c):
+        f = tok.split("~")
+        if len(f) != 10 or f[0] not in ("R", "T") or f[2] not in ("u", "a", "d", "o"):
+            raise ValueError("bad-op")
+        self.dir, n, self.how, cfg, mp, odcom, odmap, dev, ents, mappable = f
+        self.n, self.nid = int(n), c.nid
+        cc = [onat(x) for x in cfg.split(",")]
+        self.cob, self.enabled, self.rtr, self.tt, self.inh, self.ev, self.sync = cc
+        self.enabled, self.rtr = bool(self.enabled), bool(self.rtr)
+        self.map = [tuple(int(x) for x in e.split(".")) for e in lst(mp, ";")]
+        self.odcom = [tuple(onat(x) for x in e.split(":")) for e in lst(odcom, ";")]
+        kind, _, rest = odmap.partition("/")
+        if kind not in ("A", "R"):
+            raise ValueError("bad-op")
+        self.map_is_array = kind == "A"
+        self.odmap = [tuple(onat(x) for x in e.split(":")) for e in lst(rest, ";")]
+        self.dev = [onat(x) for x in dev.split(",")]
+        if len(self.dev) != 7 or any(self.dev[i] is None for i in (0, 1, 5, 6)):
+            raise ValueError("bad-op")
+        self.entries = [int(x) for x in lst(ents, ",")]
+        self.mappable = [int(x) for x in lst(mappable, ",")]
+        self.objsA, self.objsB, self.wf, self.rf = c.objsA, c.objsB, c.wf, c.rf
+        base_com, base_map = (0x1800, 0x1A00) if self.dir == "T" else (0x1400, 0x1600)
+        self.com_idx, self.map_idx = base_com + self.n - 1, base_map + self.n - 1
+        self.key = f"{self.dir}{self.n}"
+        self.src = None          # filled in by CollOp: where node A's attributes come from
+
+
+COLLS = ("r", "t", "c", "p")
+
+
+class CollOp:
+    def __init__(self, op):
+        a = op.split(" ")
+        if a[0] != "coll" or len(a) < 10:
+            raise ValueError("bad-op")
+        _, nid, self.pre, self.save, self.read, oa, ob, wf, rf = a[:9]
+        self.nid = int(nid)
+        if self.pre != "-" and (len(self.pre) != 2 or self.pre[0] not in "do" or self.pre[1] not in COLLS):
+            raise ValueError("bad-op")
+        if self.save not in COLLS + ("m", "l") or self.read not in COLLS + ("m",):
+            raise ValueError("bad-op")
+        self.objsA, self.objsB = Op._objs(oa), Op._objs(ob)
+        self.wf = None if wf == "-" else tuple(int(x) for x in wf.split(","))
+        self.rf = None if rf == "-" else tuple(int(x) for x in rf.split(","))
+        self.maps = [MapOp(t, self) for t in a[9:]]
+        if len({m.key for m in self.maps}) != len(self.maps):
+            raise ValueError("bad-op")
+
+    # which maps a call on <x> visits, in the order CiA 301 numbers them (= the order the
+    # dictionary lists their objects): RPDOs by number, then TPDOs by number
+    def visited(self, x):
+        if x == "m":
+            return list(self.maps)
+        dirs = {"r": "R", "t": "T"}.get(x, "RT")
+        return sorted((m for m in self.maps if m.dir in dirs and 1 <= m.n <= 512),
+                      key=lambda m: (m.dir == "T", m.n))
+
+
+def build_od_coll(c, objs):
+    d = od.ObjectDictionary()
+    for o in c.maps:
+        rec = od.ODRecord(f"PDO {o.key} communication parameter", o.com_idx)
+        for sub, val, dflt in o.odcom:
+            v = od.ODVariable(f"com{sub}", o.com_idx, sub)
+            v.data_type = COM_TYPE.get(sub, od.UNSIGNED8)
+            v.value, v.default = val, dflt
+            rec.add_member(v)
+        d.add_object(rec)
+        mp = (od.ODArray if o.map_is_array else od.ODRecord)(f"PDO {o.key} mapping parameter", o.map_idx)
+        for sub, val, dflt in o.odmap:
+            v = od.ODVariable(f"map{sub}", o.map_idx, sub)
+            v.data_type = od.UNSIGNED8 if sub == 0 else od.UNSIGNED32
+            v.value, v.default = val, dflt
+            mp.add_member(v)
+        d.add_object(mp)
+    for idx, subs in objs:
+        if idx in d:
+            continue
+        if subs is None:
+            v = od.ODVariable(f"obj{idx:x}", idx, 0)
+            v.data_type = od.UNSIGNED32
+            d.add_object(v)
+        else:
+            r = od.ODRecord(f"rec{idx:x}", idx)
+            for s in subs:
+                v = od.ODVariable(f"m{s}", idx, s)
+                v.data_type = od.UNSIGNED32
+                r.add_member(v)
+            d.add_object(r)
+    return d
+
+
+class MultiPdoDevice:
+    """a device with several PDOs: every SDO access goes to the PDO owning the index"""
+
+    def __init__(self, devs):
+        self.devs = devs
+
+    def _owner(self, idx):
+        for d in self.devs:
+            if idx in (d.com_idx, d.map_idx):
+                return d
+        return None
+
+    def download(self, idx, sub, data):
+        d = self._owner(idx)
+        return 0x06020000 if d is None else d.download(idx, sub, data)
+
+    def upload(self, idx, sub):
+        d = self._owner(idx)
+        return 0x06020000 if d is None else d.upload(idx, sub)
+
+
+def make_node_coll(c, objs, server):
+    node = canopen.RemoteNode(c.nid, build_od_coll(c, objs))
+    node.sdo.RESPONSE_TIMEOUT = 0.001
+    net = FakeNetwork(server)
+    net.add_node(node)
+    pms = [(node.tpdo if o.dir == "T" else node.rpdo)[o.n] for o in c.maps]
+    return node, net, pms
+
+
+def call_on(node, c, pms, x, fn):
+    if x == "m":
+        for pm in pms:
+            fn(pm)
+    elif x == "r":
+        fn(node.rpdo)
+    elif x == "t":
+        fn(node.tpdo)
+    elif x == "c":
+        fn(node.rpdo)
+        fn(node.tpdo)
+    else:
+        fn(node.pdo)
+
+
+def show_maps(c, net, pms):
+    return "|".join(f"{o.key}:{show_cfg(pm)}:{show_subs(net, pm)}" for o, pm in zip(c.maps, pms))
+
+
+def run_coll(op):
+    try:
+        c = CollOp(op)
+    except Exception:
+        return "bad-op"
+    devs = [StrictPdoDevice(o.com_idx, o.map_idx, *o.dev, o.entries, o.mappable) for o in c.maps]
+    server = SdoServer(c.nid, MultiPdoDevice(devs), c.wf, c.rf)
+    try:
+        nodeA, netA, pmsA = make_node_coll(c, c.objsA, server)
+    except (KeyError, IndexError):
+        return "no-slot"
+
+    def phase_a():
+        if c.pre != "-":
+            from_od = c.pre[0] == "o"
+            call_on(nodeA, c, pmsA, c.pre[1], lambda x: x.read(from_od=from_od))
+        for o, pm in zip(c.maps, pmsA):
+            if o.how == "a":
+                set_attributes(o, pm)
+            elif o.how == "d":
+                pm.read()
+            elif o.how == "o":
+                pm.read(from_od=True)
+        if c.save == "l":
+            nodeA.load_configuration()
+        else:
+            call_on(nodeA, c, pmsA, c.save, lambda x: x.save())
+
+    ra = outcome(phase_a)
+    a_txt = f"A=ok mapsA={show_maps(c, netA, pmsA)}" if ra == "ok" else f"A={ra} mapsA=-"
+    log_a = ",".join(server.log) if server.log else "-"
+    img = "|".join(d.image() for d in devs)
+    server.log = []
+    nodeB, netB, pmsB = make_node_coll(c, c.objsB, server)
+    rb = outcome(lambda: call_on(nodeB, c, pmsB, c.read, lambda x: x.read()))
+    b_txt = f"B=ok mapsB={show_maps(c, netB, pmsB)}" if rb == "ok" else f"B={rb} mapsB=-"
+    log_b = ",".join(server.log) if server.log else "-"
+    return f"{a_txt} log={log_a} dev={img} {b_txt} logB={log_b}"
+
+
 def run_impl(op):
+    if op.startswith("coll "):
+        return run_coll(op)
     try:
         o = Op(op)
     except Exception:
@@ -614,7 +838,203 @@ def expected_writes(o, cfg):
     return ws
 
 
+def view(o, **kw):
+    """the same PDO looked at with other attributes (source of the configuration, dictionary)"""
+    v = object.__new__(MapOp)
+    v.__dict__.update(o.__dict__)
+    v.__dict__.update(kw)
+    return v
+
+
+def parse_maps(s):
+    """'R1:<cfg>:<subs>|...' -> {key: (cfg dict, subs text)}"""
+    res = {}
+    if s == "-":
+        return None
+    for tok in s.split("|"):
+        key, cfg, subs = tok.split(":")
+        res[key] = (parse_cfg(cfg), subs)
+    return res
+
+
+def sub_text(cobs):
+    return ",".join(str(x) for x in sorted(set(cobs))) if cobs else "-"
+
+
+def check_one_pdo_order(o, writes, src_cfg):
+    """the safe procedure on the writes one PDO received, whatever the device answered"""
+    ci, mi = o.com_idx, o.map_idx
+    if writes:
+        p, _ = writes[0]
+        if (p[0], p[1]) != (ci, 1) or not p[3] & NV:
+            return f"[order] {o.key}: first write is {p[0]:#x}:{p[1]} := {p[3]:#x}, not an invalidation of the PDO"
+        if src_cfg is not None and src_cfg["cob"] is not None:
+            exp = src_cfg["cob"] | NV | (0 if src_cfg["rtr"] else NORTR)
+            if p[3] != exp:
+                return f"[encoding] {o.key}: first write {p[3]:#x}, CiA 301 encoding of the configuration is {exp:#x}"
+    zero_at = [i for i, (p, _) in enumerate(writes) if (p[0], p[1]) == (mi, 0) and p[3] == 0]
+    entry_at = [i for i, (p, _) in enumerate(writes) if p[0] == mi and p[1] >= 1]
+    count_at = [i for i, (p, _) in enumerate(writes) if (p[0], p[1]) == (mi, 0) and i not in zero_at[:1]]
+    if entry_at and (not zero_at or zero_at[0] > entry_at[0]):
+        return f"[order] {o.key}: a mapping entry was written before the number of entries was set to 0"
+    if count_at and entry_at and count_at[0] < entry_at[-1]:
+        return f"[order] {o.key}: the number of entries was set before the last mapping entry was written"
+    for i, (p, _) in enumerate(writes):
+        if (p[0], p[1]) == (ci, 1) and not p[3] & NV:
+            if i != len(writes) - 1:
+                return f"[order] {o.key}: the PDO was validated before the last write"
+            if src_cfg is not None and not src_cfg["enabled"]:
+                return f"[order] {o.key}: the PDO was validated although the configuration is disabled"
+    return None
+
+
+def coll_plan(c):
+    """where node A's attributes of each PDO come from (o.src; None = never read, never set up),
+    the configuration the property says each PDO holds before save(), and the PDOs save() has to
+    write, in the order of the collection"""
+    pre_vis = c.visited(c.pre[1]) if c.pre != "-" else []
+    pre_src = c.pre[0] if c.pre != "-" else None
+    ambiguous = False
+    for o in c.maps:
+        o.pre = pre_src if o in pre_vis else None
+        if c.save == "l":
+            o.src = "o"                       # load_configuration reads everything from the dictionary
+            if o.how != "u" or o.pre is not None:
+                ambiguous = True              # a read over attributes that exist keeps parts of them
+        elif o.how == "a":
+            o.src = "a"
+        elif o.how in ("d", "o"):
+            o.src = o.how
+            if o.pre is not None:
+                ambiguous = True
+        else:
+            o.src = o.pre
+    cfgs = {o.key: (expected_source_cfg(o) if o.src is not None else None) for o in c.maps}
+    saved_order = [o for o in c.visited("p" if c.save == "l" else c.save)
+                   if o.src is not None and not (cfgs[o.key] is not None and cfgs[o.key]["cob"] is None)]
+    return ambiguous, saved_order, cfgs
+
+
+def coll_in_domain(c, ambiguous, saved_order, cfgs):
+    """no faults, every PDO that is read is readable, every PDO that is saved holds a well-formed
+    configuration the strict device can take"""
+    if c.wf or c.rf or ambiguous:
+        return False
+    for o in c.maps:
+        if o.pre is not None and expected_source_cfg(view(o, src=o.pre)) is None:
+            return False
+        if o.src in ("d", "o") and cfgs[o.key] is None:
+            return False
+    return all(in_domain(o, cfgs[o.key]) for o in saved_order)
+
+
+def oracle_coll(op, out):
+    try:
+        c = CollOp(op)
+    except Exception:
+        return None
+    if out.startswith("HARNESS-RAISED"):
+        return "[harness] " + out
+    if out in ("no-slot", "bad-op"):
+        if out == "no-slot" and all(1 <= o.n <= 512 for o in c.maps):
+            return "[numbering] a PDO with a number in 1..512 is not reachable through node.rpdo / node.tpdo"
+        return None
+    f = parse_out(out)
+    ambiguous, saved_order, cfgs = coll_plan(c)
+    # ---- the write sequence the device saw
+    log = parse_log(f["log"])
+    writes = [(p, res) for k, p, res in log if k == "w"]
+    owner = {}
+    for o in c.maps:
+        owner[o.com_idx] = owner[o.map_idx] = o
+    seq = []                                   # PDOs in the order their blocks of writes appear
+    per = {o.key: [] for o in c.maps}
+    for p, res in writes:
+        o = owner.get(p[0])
+        if o is None:
+            return f"[order] write to {p[0]:#x}:{p[1]}, an object of no PDO of this node"
+        if not seq or seq[-1] is not o:
+            if o in seq:
+                return f"[order] the writes of {o.key} are interleaved with those of another PDO"
+            seq.append(o)
+        per[o.key].append((p, res))
+    for o in seq:
+        if o not in saved_order:
+            why = "was never read or set up" if o.src is None else "is not part of the collection that was saved"
+            return f"[untouched] {o.key} {why}, yet it was written: {per[o.key][0][0]}"
+    pos = [saved_order.index(o) for o in seq]
+    if pos != sorted(pos):
+        return ("[order] PDOs saved in the order " + ",".join(o.key for o in seq)
+                + ", the collection lists them as " + ",".join(o.key for o in saved_order))
+    for o in seq:
+        w = check_one_pdo_order(o, per[o.key], None if ambiguous else cfgs[o.key])
+        if w:
+            return w
+    # ---- in the property's domain: accepted, exactly the procedure per PDO, reads back identically
+    if not coll_in_domain(c, ambiguous, saved_order, cfgs):
+        return None
+    if f["A"] != "ok":
+        return f"[accept] saving well-formed configurations to a strict device failed: {f['A']}"
+    bad = [(p, res) for p, res in writes if res != "ok"]
+    if bad:
+        return f"[accept] the strict device refused {bad[0][0]} with {bad[0][1]}"
+    first_w = next((i for i, (k, _, _) in enumerate(log) if k == "w"), len(log))
+    if any(k == "r" for k, _, _ in log[first_w:]):
+        return "[order] save() read from the device although nothing was refused"
+    for o in saved_order:
+        got = [tuple(p) for p, _ in per[o.key]]
+        exp = expected_writes(o, cfgs[o.key])
+        if got != exp:
+            k = next((i for i, (a, b) in enumerate(zip(got, exp)) if a != b), min(len(got), len(exp)))
+            return (f"[order] {o.key}: write #{k + 1} is {got[k] if k < len(got) else None}, the safe procedure "
+                    f"has {exp[k] if k < len(exp) else None}")
+    maps_a = parse_maps(f["mapsA"])
+    for o in c.maps:
+        cobs = []
+        if o.pre is not None:
+            pc = expected_source_cfg(view(o, src=o.pre))
+            if pc["enabled"]:
+                cobs.append(pc["cob"])
+        cfg = cfgs[o.key]
+        if cfg is not None and cfg["enabled"] and (o.src in ("d", "o") or o in saved_order):
+            cobs.append(cfg["cob"])
+        if maps_a[o.key][1] != sub_text(cobs):
+            return (f"[subscribe] {o.key}: node A subscribed to {maps_a[o.key][1]}, "
+                    f"expected {sub_text(cobs)}")
+    # ---- read-back of the collection into a fresh node
+    read_b = c.visited(c.read)
+    want = {}
+    for o in read_b:
+        if o in saved_order:
+            want[o.key] = (cfgs[o.key], True)
+        else:                                  # not written: the device still holds its prior state
+            prior = expected_source_cfg(view(o, src="d", objsA=c.objsB))
+            if prior is None:
+                return None                    # the fresh node cannot read that PDO at all
+            want[o.key] = (prior, False)
+    if f["B"] != "ok":
+        return f"[readback] a fresh node could not read the collection back: {f['B']}"
+    maps_b = parse_maps(f["mapsB"])
+    for o in read_b:
+        cfg, was_saved = want[o.key]
+        cb, subs_b = maps_b[o.key]
+        for k in ("cob", "enabled", "rtr", "tt", "map"):
+            if cb[k] != cfg[k]:
+                what = "saved" if was_saved else "the device (never written) holds"
+                return f"[readback] {o.key}: {k} reads back as {cb[k]!r}, {what} {cfg[k]!r}"
+        if cfg["tt"] >= 254:
+            for k in ("inh", "ev", "sync"):
+                if cfg[k] is not None and cb[k] != cfg[k]:
+                    return f"[readback] {o.key}: {k} reads back as {cb[k]!r}, expected {cfg[k]!r}"
+        want_subs = str(cfg["cob"]) if cfg["enabled"] else "-"
+        if subs_b != want_subs:
+            return f"[subscribe] {o.key}: fresh node subscribed to {subs_b}, enabled={cfg['enabled']} cob={cfg['cob']}"
+    return None
+
+
 def oracle(op, out):
+    if op.startswith("coll "):
+        return oracle_coll(op, out)
     try:
         o = Op(op)
     except Exception:
@@ -714,11 +1134,13 @@ def oracle(op, out):
 def signature(op, what):
     tag = what[1:what.index("]")] if what.startswith("[") and "]" in what else "other"
     a = op.split(" ")
+    if a[0] == "coll":
+        return f"{tag}:coll"
     return f"{tag}:{a[4] if len(a) > 4 else '?'}"
 
 
 def nontrivial(op, out):
-    return " A=ok " in out and " B=ok " in out
+    return (" A=ok " in out or out.startswith("A=ok ")) and " B=ok " in out
 
 
 def classify(op, out):
@@ -728,6 +1150,15 @@ def classify(op, out):
     f = parse_out(out)
     ka = f.get("A", "?").split(":")[0]
     kb = f.get("B", "?").split(":")[0]
+    if a[0] == "coll":
+        try:
+            c = CollOp(op)
+            plan = coll_plan(c)
+            dom = "dom" if coll_in_domain(c, *plan) else "out"
+            unt = "skip" if any(o not in plan[1] for o in c.visited("p" if c.save == "l" else c.save)) else "all"
+        except Exception:
+            dom, unt = "?", "?"
+        return f"coll save={a[3]} {unt} {dom} A={ka} B={kb}"
     try:
         o = Op(op)
         dom = "dom" if in_domain(o, expected_source_cfg(o)) else "out"
@@ -736,8 +1167,37 @@ def classify(op, out):
     return f"src={a[4]} {dom} A={ka} B={kb}"
 
 
+def shrink_coll(a):
+    if a[7] != "-" or a[8] != "-":
+        yield " ".join(a[:7] + ["-", "-"] + a[9:])
+    maps = a[9:]
+    if len(maps) > 1:
+        for i in range(len(maps)):
+            yield " ".join(a[:9] + maps[:i] + maps[i + 1:])
+    if a[2] != "-":
+        yield " ".join(a[:2] + ["-"] + a[3:])
+    for i, tok in enumerate(maps):
+        f = tok.split("~")
+        m = lst(f[4], ";")
+        if m and f[2] == "a":
+            g = list(f)
+            g[4] = ";".join(m[:-1]) or "-"
+            yield " ".join(a[:9] + maps[:i] + ["~".join(g)] + maps[i + 1:])
+        cc = f[3].split(",")
+        for j in (4, 5, 6):
+            if cc[j] != "-" and f[2] == "a":
+                c2 = list(cc)
+                c2[j] = "-"
+                g = list(f)
+                g[3] = ",".join(c2)
+                yield " ".join(a[:9] + maps[:i] + ["~".join(g)] + maps[i + 1:])
+
+
 def shrink_candidates(op):
     a = op.split(" ")
+    if a[0] == "coll":
+        yield from shrink_coll(a)
+        return
     if len(a) != 17:
         return
     if a[15] != "-" or a[16] != "-":
@@ -933,7 +1393,128 @@ class Scn:
 ABORTS = [0x06010002, 0x06010000, 0x06090030, 0x08000022, 0x06040041, 0x05040000]
 
 
+# ---- collection operations
+NUMS = [1, 2, 3, 4, 5, 256, 511, 512]
+
+
+def merge_objs(lists):
+    """node-wide object list knowing everything any of the per-PDO lists knows"""
+    acc = {}
+    for objs in lists:
+        for idx, subs in objs:
+            if idx not in acc:
+                acc[idx] = None if subs is None else list(subs)
+            elif acc[idx] is not None:
+                acc[idx] = None if subs is None else sorted(set(acc[idx]) | set(subs))
+    return list(acc.items())
+
+
+def coll_op(rng, keys, hows, pre="-", save="p", read="p", wf=None, rf=None, shuffle=False,
+            all_odvals=False, drop_b=False, tweak=None):
+    """keys: [(dir, n)], hows: per key u|a|d|o"""
+    nid = rng.choice([1, 5, 127]) if rng.random() < 0.6 else rng.randrange(1, 128)
+    toks, objs = [], []
+    for i, ((d, n), how) in enumerate(zip(keys, hows)):
+        sc = Scn(rng, dir=d, n=n, nid=nid, odvals=all_odvals or how == "o")
+        if how == "d":
+            sc.map = []
+        if tweak:
+            tweak(i, sc)
+        a = sc.render().split(" ")
+        objs.append(Op._objs(a[10]))
+        toks.append("~".join([d, str(n), how, a[6], a[7], a[8], a[9], a[12], a[13], a[14]]))
+    if shuffle:
+        rng.shuffle(toks)
+    oa = merge_objs(objs)
+    ob = list(oa)
+    if drop_b and ob:
+        ob.pop(rng.randrange(len(ob)))
+    fl = lambda x: "-" if x is None else f"{x[0]},{x[1]}"  # noqa: E731
+    return " ".join(["coll", str(nid), pre, save, read, fmt_objs(oa), fmt_objs(ob), fl(wf), fl(rf)] + toks)
+
+
+def rand_keys(rng, k, dirs="RT"):
+    keys = set()
+    while len(keys) < k:
+        n = rng.choice(NUMS) if rng.random() < 0.7 else rng.randrange(1, 513)
+        keys.add((rng.choice(dirs), n))
+    return sorted(keys, key=lambda x: (x[0] == "T", x[1]))
+
+
+def gen_coll(tier, rng):
+    k = 1 if tier == "quick" else 8
+    calls = ["m", "r", "t", "c", "p"]
+    # 1. every way of saving x every way of reading back, all PDOs set up by the application
+    for sv in calls:
+        for rd in calls:
+            for _ in range(2 * k):
+                keys = rand_keys(rng, rng.randrange(1, 5))
+                yield coll_op(rng, keys, ["a"] * len(keys), save=sv, read=rd, shuffle=rng.random() < 0.3)
+    # 2. PDOs that were never read or set up, before / between / after configured ones
+    for sv in ["r", "t", "c", "p", "p", "m"]:
+        for nk in (2, 3, 4):
+            for _ in range(3 * k):
+                dirs = {"r": "R", "t": "T"}.get(sv, rng.choice(["R", "T", "RT", "RT"]))
+                keys = rand_keys(rng, nk, dirs)
+                hows = [rng.choice("ua") for _ in keys]
+                r = rng.random()
+                if r < 0.5:
+                    hows[0], hows[-1] = "u", "a"          # the first one of the collection untouched
+                elif r < 0.7:
+                    hows[0], hows[-1] = "a", "u"
+                yield coll_op(rng, keys, hows, save=sv, read=rng.choice(calls), shuffle=rng.random() < 0.3)
+    # 3. every source of the configuration side by side
+    for _ in range(50 * k):
+        keys = rand_keys(rng, rng.randrange(2, 5))
+        yield coll_op(rng, keys, [rng.choice("uaddoo") for _ in keys], save=rng.choice(calls),
+                      read=rng.choice(calls), shuffle=rng.random() < 0.3)
+    # 4. the collection read first (live or from the dictionary), some PDOs then set up anew
+    for _ in range(40 * k):
+        keys = rand_keys(rng, rng.randrange(1, 5))
+        src = rng.choice("do")
+        yield coll_op(rng, keys, [rng.choice("uua") for _ in keys], pre=src + rng.choice("rtcp"),
+                      save=rng.choice(calls), read=rng.choice(calls), all_odvals=src == "o")
+    # 5. load_configuration with several PDOs in the dictionary
+    for _ in range(25 * k):
+        keys = rand_keys(rng, rng.randrange(1, 5))
+        yield coll_op(rng, keys, ["u"] * len(keys), save="l", read=rng.choice(calls), all_odvals=True)
+    # 6. outside the domain: faults, a PDO the device cannot take, a reader that lacks an object
+    for _ in range(40 * k):
+        keys = rand_keys(rng, rng.randrange(1, 5))
+        yield coll_op(rng, keys, [rng.choice("uaado") for _ in keys], save=rng.choice(calls),
+                      read=rng.choice(calls), wf=(rng.randrange(1, 25), rng.choice(ABORTS)))
+    for _ in range(20 * k):
+        keys = rand_keys(rng, rng.randrange(1, 5))
+        yield coll_op(rng, keys, [rng.choice("uaado") for _ in keys], pre=rng.choice(["-", "dp", "dc"]),
+                      save=rng.choice(calls), read=rng.choice(calls),
+                      rf=(rng.randrange(1, 25), rng.choice(ABORTS)))
+    for _ in range(30 * k):
+        keys = rand_keys(rng, rng.randrange(2, 5))
+        bad = rng.randrange(len(keys))
+        kind = rng.randrange(4)
+
+        def tweak(i, sc, bad=bad, kind=kind):
+            if i != bad:
+                return
+            if kind == 0:
+                sc.fixed = 1
+            elif kind == 1:
+                sc.mappable_drop = True
+            elif kind == 2:
+                sc.cob = None
+            else:
+                sc.odcom_drop = [rng.choice([1, 2])]
+        yield coll_op(rng, keys, ["a"] * len(keys), save=rng.choice(calls), read=rng.choice(calls),
+                      tweak=tweak, drop_b=rng.random() < 0.2)
+
+
 def gen_ops(tier, rng):
+    yield from gen_single(tier, rng)
+    # an own stream for the collection operations, so that the single-PDO stream of a seed stays as it was
+    yield from gen_coll(tier, random.Random(rng.getrandbits(64)))
+
+
+def gen_single(tier, rng):
     big = tier != "quick"
     k = 8 if big else 1
     # 1. the property's domain: attributes -> save -> read back ------------------------------
@@ -1070,6 +1651,19 @@ CORPUS = [
     # same, disabled, RPDO512 with a 29-bit COB-ID, optional subs absent
     "run R 512 127 a 0 536870911,0,0,254,-,-,- 8192.1.8 0:-:2;1:-:-;2:-:- "
     "R/0:-:-;1:-:-;2:-:- 8192:1,2 8192:1,2 2147484159,0,-,-,-,0,0 0,0 536871176 - -",
+    # node 5 with three TPDOs, only TPDO3 set up by the application (TPDO1, TPDO2 never touched and
+    # enabled on the device), saved through node.tpdo, read back through node.tpdo
+    "coll 5 - t t 8193;8194;8195 8193;8194;8195 - - "
+    "T~1~u~-,0,1,-,-,-,-~-~0:-:5;1:-:-;2:-:-;3:-:-;5:-:-~A/0:-:-;1:-:-~389,1,0,0,-,0,0~0,0~536936480 "
+    "T~2~u~-,0,1,-,-,-,-~-~0:-:5;1:-:-;2:-:-;3:-:-;5:-:-~A/0:-:-;1:-:-~645,1,0,0,-,1,0~536936480,0~536936480 "
+    "T~3~a~965,1,0,254,20,500,-~8193.0.32;8194.0.16;8195.0.8~0:-:5;1:-:-;2:-:-;3:-:-;5:-:-~A/0:-:-;1:-:-"
+    "~2147484549,1,0,0,-,0,0~0,0,0,0~536936480,537002000,537067528",
+    # the same through node.pdo with an RPDO in front, listed out of order, read back map by map
+    "coll 5 - p m 8193;8194;8195 8193;8194;8195 - - "
+    "T~3~a~965,1,0,254,20,500,-~8193.0.32;8194.0.16;8195.0.8~0:-:5;1:-:-;2:-:-;3:-:-;5:-:-~A/0:-:-;1:-:-"
+    "~2147484549,1,0,0,-,0,0~0,0,0,0~536936480,537002000,537067528 "
+    "R~2~u~-,0,1,-,-,-,-~-~0:-:2;1:-:-;2:-:-~R/0:-:-;1:-:-~2147484421,255,-,-,-,0,0~0~- "
+    "T~1~a~389,0,1,1,-,-,-~8195.0.8~0:-:5;1:-:-;2:-:-;3:-:-;5:-:-~A/0:-:-;1:-:-~389,1,0,0,-,1,0~537002000,0~537002000,537067528",
 ]
 
 LEVEL_TEXT = ("Lean 4 theorems over all configurations (COB-ID < 2^29, flags, transmission type, optional "
@@ -1079,7 +1673,12 @@ LEVEL_TEXT = ("Lean 4 theorems over all configurations (COB-ID < 2^29, flags, tr
               "strict CiA 301 device accepts every write from every prior state (and refuses every shortcut); a fresh node's read() returns the "
               "same COB-ID, flags, transmission type, mapping (and timers for 254/255) and subscribes iff enabled; "
               "from_od takes value-else-default; load_configuration round-trips; PdoMaps numbering = CiA 301 object "
-              "ranges and pre-defined connection set.  Model tied to the code by regenerated constants and a "
+              "ranges and pre-defined connection set; collections (node.rpdo / node.tpdo / node.pdo .save() and .read()): against any "
+              "device the writes are a prefix of the per-PDO safe procedures concatenated in increasing PDO number "
+              "(RPDOs before TPDOs), a PDO whose COB-ID was never set gets no write and does not end the loop; a "
+              "strict device with any number of distinct PDOs in any prior state accepts everything, ends with "
+              "every configured PDO's encodings and every untouched PDO unchanged, and a fresh node reads the whole "
+              "collection back identically.  Model tied to the code by regenerated constants and a "
               "differential run through the real SdoClient against an independent Python strict device")
 LEVEL_NOTE = ("trusted: Lean kernel + propext/Classical.choice/Quot.sound; the strict device is my reading of CiA 301 "
               "(written twice); the SDO transport is abstracted to (index, sub, size, value) transactions; dictionary "
